@@ -26,7 +26,7 @@ func init() {
 			if tier == "thorough" {
 				return []core.Suite{{Name: "full", N: 60000}, {Name: "partial", N: 60000}, {Name: "tall", N: 100, CaseTimeout: 600}}
 			}
-			return []core.Suite{{Name: "full", N: 1200}, {Name: "partial", N: 1200}, {Name: "tall", N: 3, CaseTimeout: 600}}
+			return []core.Suite{{Name: "full", N: 5000}, {Name: "partial", N: 5000}, {Name: "tall", N: 6, CaseTimeout: 600}}
 		},
 		Run: func(c *core.Ctx) {
 			c10Check(c, c10Scenario(c))
